@@ -146,10 +146,17 @@ func (i *interpreter) indexOf(idx value, n int, t types.Type) int64 {
 		w := it.sort.W
 		_, signed, _ := basicWidth(t)
 		var inb *Term
+		// the length may not be representable in the index type (a uint8 index into a
+		// [256]T table): the upper test is then vacuously true, not "index < 0"
 		if signed {
-			inb = i.ts.And(i.ts.BVCmp("bvsle", i.ts.BV(w, 0), it), i.ts.BVCmp("bvslt", it, i.ts.BV(w, uint64(n))))
-		} else {
+			inb = i.ts.BVCmp("bvsle", i.ts.BV(w, 0), it)
+			if w >= 64 || uint64(n) <= (uint64(1)<<(uint(w)-1))-1 {
+				inb = i.ts.And(inb, i.ts.BVCmp("bvslt", it, i.ts.BV(w, uint64(n))))
+			}
+		} else if w >= 64 || uint64(n) <= (uint64(1)<<uint(w))-1 {
 			inb = i.ts.BVCmp("bvult", it, i.ts.BV(w, uint64(n)))
+		} else {
+			inb = i.ts.Bool(true)
 		}
 		if !i.branch(inb) {
 			i.raise(fmt.Sprintf("index out of range [symbolic] with length %d", n))
